@@ -35,13 +35,13 @@ func modAddr(tag byte) sdk.AccAddress {
 }
 
 var moduleTags = map[string]byte{
-	alliancetypes.ModuleName:         0xA1,
-	alliancetypes.RewardsPoolName:    0xA2,
-	FeeCollector:                     0xA3,
-	stakingtypes.BondedPoolName:      0xA4,
-	stakingtypes.NotBondedPoolName:   0xA5,
-	"gov":                            0xA6,
-	"distribution":                   0xA7,
+	alliancetypes.ModuleName:       0xA1,
+	alliancetypes.RewardsPoolName:  0xA2,
+	FeeCollector:                   0xA3,
+	stakingtypes.BondedPoolName:    0xA4,
+	stakingtypes.NotBondedPoolName: 0xA5,
+	"gov":                          0xA6,
+	"distribution":                 0xA7,
 }
 
 type Account struct{}
@@ -53,7 +53,7 @@ func (Account) GetModuleAddress(name string) sdk.AccAddress {
 	}
 	return modAddr(t)
 }
-func (Account) GetAccount(context.Context, sdk.AccAddress) sdk.AccountI      { return nil }
+func (Account) GetAccount(context.Context, sdk.AccAddress) sdk.AccountI     { return nil }
 func (Account) GetModuleAccount(context.Context, string) sdk.ModuleAccountI { return nil }
 
 // ---------------------------------------------------------------- bank (A-bank)
@@ -241,15 +241,15 @@ func (d *Distr) Clone(b *Bank) *Distr {
 // ---------------------------------------------------------------- staking (A-staking)
 
 type Staking struct {
-	Vals     map[string]*stakingtypes.Validator // by operator bech32
-	ValOrder []string
-	Dels     map[string]*stakingtypes.Delegation // dkey
-	DelOrder []string
-	Bank     *Bank
-	Distr    *Distr
-	Hooks    stakingtypes.StakingHooks // the alliance hooks (distribution's are modelled inline)
+	Vals      map[string]*stakingtypes.Validator // by operator bech32
+	ValOrder  []string
+	Dels      map[string]*stakingtypes.Delegation // dkey
+	DelOrder  []string
+	Bank      *Bank
+	Distr     *Distr
+	Hooks     stakingtypes.StakingHooks // the alliance hooks (distribution's are modelled inline)
 	Unbonding time.Duration
-	HookLog  []string
+	HookLog   []string
 }
 
 func (s *Staking) UnbondingTime(context.Context) (time.Duration, error) { return s.Unbonding, nil }
@@ -499,14 +499,14 @@ func (s *Staking) Clone(b *Bank, d *Distr) *Staking {
 
 // Env bundles the real keeper with its environment.
 type Env struct {
-	Ctx    sdk.Context
-	Store  *Store
-	Cdc    nd.Cdc
-	Bank   *Bank
-	Stk    *Staking
-	Distr  *Distr
-	Ak     Account
-	K      keeper.Keeper
+	Ctx       sdk.Context
+	Store     *Store
+	Cdc       nd.Cdc
+	Bank      *Bank
+	Stk       *Staking
+	Distr     *Distr
+	Ak        Account
+	K         keeper.Keeper
 	Authority string
 }
 
@@ -537,6 +537,19 @@ func (e *Env) Codec() codec.BinaryCodec { return e.Cdc }
 // WithBlock moves the context to another block.
 func (e *Env) WithBlock(t time.Time, h int64) {
 	e.Ctx = e.Ctx.WithBlockTime(t).WithBlockHeight(h)
+}
+
+// RestoreFrom overwrites the state of e IN PLACE with a copy of the state of s, keeping e's keeper
+// instance and its wiring: what an application does when it discards a cache context (failed or
+// simulated transaction) - the stores roll back, the long-lived keeper object stays.
+func (e *Env) RestoreFrom(s *Env) {
+	*e.Store = *s.Store.Clone()
+	*e.Bank = *s.Bank.Clone()
+	*e.Distr = *s.Distr.Clone(e.Bank)
+	hooks := e.Stk.Hooks
+	*e.Stk = *s.Stk.Clone(e.Bank, e.Distr)
+	e.Stk.Hooks = hooks
+	e.Ctx = s.Ctx
 }
 
 // Branch returns an independent copy of the whole state (for probing on a discarded branch).
